@@ -120,7 +120,12 @@ mod value;
 pub mod verif;
 
 fn raw_to_parse_error(map: &CodeMap, err: Error, unicode: bool) -> Box<Error> {
-    let (message, span) = err.raw();
+    // I/O and UTF-8 errors from imported files carry no span and are already
+    // in their public form
+    let (message, span) = match err.try_raw() {
+        Ok(raw) => raw,
+        Err(err) => return Box::new(err),
+    };
     Box::new(Error::from_loc(message, map.look_up_span(span), unicode))
 }
 
